@@ -887,6 +887,244 @@ func (e *env) insertChainTwice() {
 	}
 }
 
+// ---------------------------------------------------------------- header-first import: ValidateHeaderChain
+
+// recEngine records the seal sample ValidateHeaderChain hands to VerifyHeaders
+type recEngine struct {
+	*aquahash.Aquahash
+	seals []bool
+}
+
+func (r *recEngine) VerifyHeaders(chain consensus.ChainReader, headers []*types.Header, seals []bool) (chan<- struct{}, <-chan error) {
+	r.seals = append([]bool{}, seals...)
+	return r.Aquahash.VerifyHeaders(chain, headers, seals)
+}
+
+// headerChainImport: real header chains (core.GenerateChain) imported header-first through core.BlockChain.InsertHeaderChain
+// (-> HeaderChain.ValidateHeaderChain) with checkFreq 1, 2, 3, 5, 100: valid, one rule broken in one header (re-linked),
+// broken link / number (not contiguous), failing seal at one height (caught only if sampled), known prefix.
+// Compared: the recorded seal sample with the model's pick_seals on the random numbers recovered from it; the verdict
+// (index, error) with the model's validate_with_seals.  Direct oracle: the sample has the window property; the verdict is
+// the first header, in order, that breaks a rule of the property statement or whose sampled seal fails.
+func (e *env) headerChainImport() {
+	c := e.c
+	cfgs := []struct {
+		name string
+		cfg  *params.ChainConfig
+	}{{"test", params.TestChainConfig}, {"hf5@3", customCfg(4242, map[int]int64{1: 1, 2: 2, 5: 3, 7: 0})}, {"hf8@4", customCfg(4252, map[int]int64{1: 0, 2: 0, 3: 0, 5: 0, 6: 0, 8: 4})}}
+	type hmut struct {
+		name string
+		f    func(h, p *types.Header)
+	}
+	hmuts := []hmut{
+		{"extra=33", func(h, p *types.Header) { h.Extra = make([]byte, 33) }},
+		{"time=parent", func(h, p *types.Header) { h.Time = new(big.Int).Set(p.Time) }},
+		{"diff+1", func(h, p *types.Header) { h.Difficulty = new(big.Int).Add(h.Difficulty, big.NewInt(1)) }},
+		{"diff-1", func(h, p *types.Header) { h.Difficulty = new(big.Int).Sub(h.Difficulty, big.NewInt(1)) }},
+		{"gaslimit=2^63", func(h, p *types.Header) { h.GasLimit = 1 << 63 }},
+		{"gasused=limit+1", func(h, p *types.Header) { h.GasUsed = h.GasLimit + 1 }},
+		{"gaslimit=parent+bound", func(h, p *types.Header) { h.GasLimit = p.GasLimit + p.GasLimit/1024 }},
+		{"gaslimit=4999", func(h, p *types.Header) { h.GasLimit = 4999; h.GasUsed = 0 }},
+	}
+	nsc := c.Scale(36, 400)
+	for it := 0; it < nsc; it++ {
+		sc := cfgs[it%len(cfgs)]
+		cfg := sc.cfg
+		n := 1 + c.Rng.Intn(24)
+		freq := []int{1, 2, 3, 5, 100}[c.Rng.Intn(5)]
+		kind := []string{"valid", "valid", "one-bad", "one-bad", "broken-link", "broken-number", "seal-fail", "seal-fail", "known-prefix"}[it%9]
+		var (
+			verdict  string
+			seals    []bool
+			headers  []*types.Header
+			genesisH *types.Header
+			known    int
+			failNo   uint64
+			mname    string
+			badIdx   = -1
+		)
+		pan, pv := vh.CatchPanic(func() {
+			db := aquadb.NewMemDatabase()
+			gspec := &core.Genesis{Config: cfg, Difficulty: big.NewInt(46039386)}
+			genesis := gspec.MustCommit(db)
+			blocks, _ := core.GenerateChain(context.Background(), cfg, genesis, aquahash.NewFaker(), db, n, nil)
+			for _, b := range blocks {
+				headers = append(headers, b.Header())
+			}
+			relink := func(from int) {
+				for j := from + 1; j < len(headers); j++ {
+					headers[j].ParentHash = headers[j-1].Hash()
+				}
+			}
+			parentOf := func(k int) *types.Header {
+				if k == 0 {
+					return genesis.Header()
+				}
+				return headers[k-1]
+			}
+			eng := aquahash.NewFaker()
+			switch kind {
+			case "one-bad":
+				badIdx = c.Rng.Intn(n)
+				mu := hmuts[c.Rng.Intn(len(hmuts))]
+				mname = mu.name
+				mu.f(headers[badIdx], parentOf(badIdx))
+				relink(badIdx)
+			case "broken-link":
+				if n >= 2 {
+					badIdx = 1 + c.Rng.Intn(n-1)
+					copy(headers[badIdx].ParentHash[:], c.Rng.Bytes(32))
+				}
+			case "broken-number":
+				if n >= 2 {
+					badIdx = 1 + c.Rng.Intn(n-1)
+					headers[badIdx].Number = new(big.Int).Add(headers[badIdx].Number, big.NewInt(1))
+					relink(badIdx)
+				}
+			case "seal-fail":
+				failNo = headers[c.Rng.Intn(n)].Number.Uint64()
+				eng = aquahash.NewFakeFailer(failNo)
+			}
+			db2 := aquadb.NewMemDatabase()
+			gspec.MustCommit(db2)
+			rec := &recEngine{Aquahash: eng}
+			bc, err := core.NewBlockChain(context.Background(), db2, nil, cfg, rec, vm.Config{})
+			if err != nil {
+				verdict = "setup " + err.Error()
+				return
+			}
+			defer bc.Stop()
+			genesisH = bc.GetHeaderByNumber(0)
+			if kind == "known-prefix" && n >= 2 {
+				known = 1 + c.Rng.Intn(n-1)
+				if _, err := bc.InsertHeaderChain(headers[:known], 1); err != nil {
+					verdict = "setup prefix: " + err.Error()
+					return
+				}
+			}
+			idx, err := bc.InsertHeaderChain(headers, freq)
+			seals = rec.seals
+			switch {
+			case err == nil:
+				verdict = "ok"
+			case strings.Contains(err.Error(), "non contiguous insert"):
+				verdict = "noncontiguous"
+			default:
+				verdict = fmt.Sprintf("%d %s", idx, classify(err))
+			}
+		})
+		if pan {
+			verdict = fmt.Sprintf("panic %v", pv)
+		}
+		key := ""
+		if verdict == "ok" {
+			key = fmt.Sprintf("hc/%s/%d/%d/%d", sc.name, n, freq, it)
+		}
+		c.Eval("headerchain/"+kind, key)
+		c.Count("headerchain-verdict/" + strings.SplitN(verdict, " ", 2)[0])
+		rep := map[string]string{"config": cfgTok(cfg), "kind": kind, "mutation": mname, "headers": fmt.Sprint(n), "checkFreq": fmt.Sprint(freq), "verdict": verdict, "bad_index": fmt.Sprint(badIdx), "failing_seal_number": fmt.Sprint(failNo), "known_prefix": fmt.Sprint(known)}
+		if strings.HasPrefix(verdict, "setup") || pan {
+			c.Violate("headerchain-import/"+verdict, "header-first import failed unexpectedly", rep)
+			continue
+		}
+		// ---- independent expectation
+		want := "ok"
+		contiguous := true
+		for i := 1; i < n; i++ {
+			if headers[i].Number.Uint64() != headers[i-1].Number.Uint64()+1 || headers[i].ParentHash != headers[i-1].Hash() {
+				contiguous = false
+			}
+		}
+		if !contiguous {
+			want = "noncontiguous"
+		}
+		sb := ""
+		if contiguous {
+			// the sample: one flag per header, last one set, every complete window has one, at most n/freq+1 set
+			okSample := len(seals) == n && seals[n-1]
+			cnt := 0
+			for _, b := range seals {
+				if b {
+					cnt++
+					sb += "1"
+				} else {
+					sb += "0"
+				}
+			}
+			for w := 0; okSample && w < n/freq; w++ {
+				hit := false
+				for j := w * freq; j < (w+1)*freq && j < n; j++ {
+					hit = hit || seals[j]
+				}
+				okSample = okSample && hit
+			}
+			if !okSample || cnt > n/freq+1 {
+				rep["seals"] = sb
+				c.Violate(fmt.Sprintf("headerchain-seal-sample/n=%d/freq=%d/%s", n, freq, sb), "the seal sample of ValidateHeaderChain misses a window of checkFreq headers or the last header", rep)
+			}
+			// recover the random numbers: the first flag of each window (the forced last flag is not a pick unless it is the only one)
+			rands := []string{}
+			for w := 0; w < n/freq; w++ {
+				pick := -1
+				for j := w * freq; j < (w+1)*freq && j < n; j++ {
+					if seals[j] && (j != n-1 || pick == -1) && pick == -1 {
+						pick = j
+					}
+				}
+				if pick < 0 {
+					pick = w * freq
+				}
+				rands = append(rands, fmt.Sprint(pick-w*freq))
+			}
+			rt := "-"
+			if len(rands) > 0 {
+				rt = strings.Join(rands, ",")
+			}
+			c.Correspond("ValidateHeaderChain(seal sample)~pick_seals", fmt.Sprintf("%d %d %s", n, freq, rt), "ok "+sb, e.m.Ask(fmt.Sprintf("pickseals %d %d %s", n, freq, rt)))
+			// verdict: first header that is not already known and breaks a rule, or whose sampled seal fails
+			for i := 0; i < n && want == "ok"; i++ {
+				if i < known {
+					continue
+				}
+				p, gp := genesisH, (*types.Header)(nil)
+				if i >= 1 {
+					p = headers[i-1]
+					gp = genesisH
+				}
+				if i >= 2 {
+					gp = headers[i-2]
+				}
+				if f := rulesOK(cfg, time.Now().Unix(), headers[i], p, gp); f != "" {
+					want = fmt.Sprintf("%d", i)
+				} else if seals[i] && failNo != 0 && headers[i].Number.Uint64() == failNo {
+					want = fmt.Sprintf("%d", i)
+				}
+			}
+			// model
+			chainHs := []*types.Header{genesisH}
+			chainHs = append(chainHs, headers[:known]...)
+			seal := func(h *types.Header) int {
+				if failNo != 0 && h.Number.Uint64() == failNo {
+					return 1
+				}
+				return 0
+			}
+			cas := fmt.Sprintf("vchain %s %d %s %s %s", cfgTok(cfg), time.Now().Unix(), hdrsTok(chainHs, seal), hdrsTok(headers, seal), sb)
+			c.Correspond("InsertHeaderChain/ValidateHeaderChain~validate_with_seals", cas, verdict, e.m.Ask(cas))
+		} else {
+			cas := fmt.Sprintf("vchain %s %d %s %s -", cfgTok(cfg), time.Now().Unix(), hdrTok(genesisH, 0), hdrsTok(headers, noSeal))
+			c.Correspond("InsertHeaderChain/ValidateHeaderChain~validate_with_seals", cas, verdict, e.m.Ask(cas))
+		}
+		got := strings.SplitN(verdict, " ", 2)[0]
+		if got != want {
+			rep["expected_first_failing_index"] = want
+			rep["seals"] = sb
+			c.Violate(fmt.Sprintf("headerchain-verdict/%s/%s/n=%d/freq=%d/bad=%d/%s", cfgTok(cfg), kind+mname, n, freq, badIdx, verdict),
+				"header-first import: the verdict of InsertHeaderChain differs from the first header that breaks a rule or whose sampled seal fails", rep)
+		}
+	}
+}
+
 // ---------------------------------------------------------------- 1. CalcDifficulty lattice
 
 // monotone: the defined forks are scheduled in increasing order of their index
@@ -1888,6 +2126,9 @@ func main() {
 	t0 := time.Now()
 	e.insertChainTwice()
 	c.Note("insertChainTwice took %.1fs", time.Since(t0).Seconds())
+	t1 := time.Now()
+	e.headerChainImport()
+	c.Note("headerChainImport took %.1fs", time.Since(t1).Seconds())
 	e.versions()
 	e.difficultyLattice()
 	e.headerRules()
